@@ -154,19 +154,16 @@ def _single_command(X, ev, prog, fmt, cmd):
 
 def _body_key(word, want: bytes, got: bytes):
     notes = set(word.notes)
+    if not word.inexact and "trailing-newline-stripped" in notes and want.rstrip(b"\n") == got:
+        return "trailing-newline-stripped"
     if word.inexact or "percent-directive" in notes or "percent-percent" in notes:
         return "printf-percent"
-    if notes & {"backslash-escape", "octal-escape", "bad-hex-escape", "unicode-escape"} or (b"\\" in want and "command-substitution" in notes and want.rstrip(b"\n") != got):
+    if notes & {"backslash-escape", "octal-escape", "bad-hex-escape", "unicode-escape"} or (b"\\" in want and "command-substitution" in notes):
         return "printf-backslash"
-    if "trailing-newline-stripped" in notes and want.rstrip(b"\n") == got:
-        return "trailing-newline-stripped"
     if "command-substitution" in notes and b"\\x" in got:
         return "printf-hex-escape-not-interpreted"
-    try:
-        if want.decode("latin-1").encode("utf-8") == got or any(b >= 0x80 for b in want):
-            return "non-utf8-charset-reencoded"
-    except Exception:  # noqa
-        pass
+    if any(b >= 0x80 for b in want):
+        return "non-utf8-charset-reencoded"
     return "other"
 
 
@@ -174,19 +171,20 @@ def judge_curl(X, cmd, ev, exp):
     """exp: dict(method, url, headers [(k, v) str], content bytes, resolve str|None)"""
     c = _single_command(X, ev, "curl", "curl", cmd)
     args = list(c.argv[1:])
-    hdrs, method, data, urls, resolve, compressed = [], None, None, [], None, False
+    hdrs, method, data, urls, resolve, compressed, data_raw = [], None, None, [], None, False, False
     i = 0
     while i < len(args):
         a = args[i]
-        if a in ("-H", "-X", "-d", "--resolve"):
+        if a in ("-H", "-X", "-d", "--data-raw", "--resolve"):
             X.check(i + 1 < len(args), "C48/curl/option-without-value", f"{cmd!r}: {a} is the last argument", command=cmd)
             v = args[i + 1]
             if a == "-H":
                 hdrs.append(v)
             elif a == "-X":
                 method = v
-            elif a == "-d":
+            elif a in ("-d", "--data-raw"):
                 data = v
+                data_raw = a == "--data-raw"  # curl(1): like -d, but a leading @ has no special meaning
             else:
                 resolve = v
             i += 2
@@ -202,25 +200,34 @@ def judge_curl(X, cmd, ev, exp):
     # method
     eff_method = method if method is not None else ("POST" if data is not None else "GET")
     # Request.method is documented as upper-cased; the comparison ignores case (see ASSUMPTIONS)
-    X.check(eff_method.upper() == exp["method"].upper(), "C48/curl/method", f"{cmd!r}: curl uses method {eff_method!r}, request has {exp['method']!r}", command=cmd)
+    mkey = "C48/curl/get-with-body-sent-as-post" if (method is None and data is not None and exp["method"].upper() == "GET") else "C48/curl/method"
+    X.check(eff_method.upper() == exp["method"].upper(), mkey, f"{cmd!r}: curl uses method {eff_method!r}, request has {exp['method']!r}", command=cmd)
     # URL
     X.check(urls == [exp["url"]], "C48/curl/url", f"{cmd!r}: URL arguments {urls!r}, request URL {exp['url']!r}", command=cmd)
     X.check(resolve == exp["resolve"], "C48/curl/resolve", f"{cmd!r}: --resolve {resolve!r}, expected {exp['resolve']!r}", command=cmd)
     # header set: content-length is computed by curl; --compressed stands for the accept-encoding header
-    want = [f"{k}: {v}" for k, v in exp["headers"] if k.lower() not in ("content-length", "accept-encoding")]
-    got = [h for h in hdrs if not h.lower().startswith("content-length:")]
-    X.check(got == want, "C48/curl/header-set", f"{cmd!r}: -H arguments {got!r}, request headers {want!r}", command=cmd)
-    X.check(compressed == any(k.lower() == "accept-encoding" for k, _ in exp["headers"]), "C48/curl/compressed", f"{cmd!r}: --compressed={compressed}", command=cmd)
-    for h in got:
+    # curl(1): "-H 'name: value'" sends that line; "-H 'name;'" sends the header with an empty value; "-H 'name:'" (nothing but blanks after the colon) sends
+    # nothing; a leading @ reads header lines from a file.  Both sides are compared as (name, value without surrounding blanks) — what an HTTP recipient sees.
+    want = [(k, v.strip(" \t")) for k, v in exp["headers"] if k.lower() not in ("content-length", "accept-encoding")]
+    got = []
+    for h in hdrs:
+        if h.lower().startswith("content-length:"):
+            continue
         if h.startswith("@"):
-            X.fail("C48/curl/header-name-at-reads-file", f"{cmd!r}: curl reads -H {h!r} as a file name (curl(1): -H @filename)", command=cmd)
+            X.fail("C48/curl/header-name-at-reads-file", f"{cmd!r}: curl reads -H {str(h)!r} as a file name (curl(1): -H @filename)", command=cmd)
         name, sep, val = h.partition(":")
+        if not sep and h.endswith(";"):
+            got.append((h[:-1], ""))
+            continue
         if sep and val.strip(" \t") == "":
-            X.fail("C48/curl/empty-header-value-dropped", f"{cmd!r}: curl does not send a header given as {h!r} (curl(1): a header without value needs 'name;')", command=cmd)
+            X.fail("C48/curl/empty-header-value-dropped", f"{cmd!r}: curl does not send a header given as {str(h)!r} (curl(1): a header without value needs 'name;')", command=cmd)
+        got.append((name, val.strip(" \t")))
+    X.check(got == want, "C48/curl/header-set", f"{cmd!r}: -H arguments decode to {got!r}, request headers {want!r}", command=cmd)
+    X.check(compressed == any(k.lower() == "accept-encoding" for k, _ in exp["headers"]), "C48/curl/compressed", f"{cmd!r}: --compressed={compressed}", command=cmd)
     # body
     if exp["content"]:
         X.check(data is not None, "C48/body/missing", f"{cmd!r}: no -d although the request has a body", command=cmd)
-        if data.startswith("@"):
+        if data.startswith("@") and not data_raw:
             X.fail("C48/body/leading-at-reads-file", f"{cmd!r}: curl reads -d {str(data)!r} from the file {str(data)[1:]!r} instead of sending it (curl(1): -d @filename)",
                    command=cmd)
         gotb = shmodel.to_bytes(data)
@@ -412,6 +419,8 @@ def h_raw(X, maxlen):
         wire = gzip.compress(plain, mtime=0)
         headers.append(("content-encoding", "gzip"))
     elif coding == "gzip-invalid":
+        # bytes zlib rejects outright (a merely truncated stream is silently decoded to b"" by encoding.decode_gzip — that is C31's subject)
+        wire = b"\x00\xff" + plain
         headers.append(("content-encoding", "gzip"))
     if chunked:
         headers.append(("transfer-encoding", "chunked"))
@@ -434,7 +443,7 @@ def h_raw(X, maxlen):
     want = [(k.encode("utf-8"), v.encode("utf-8")) for k, v in headers if k.encode() not in skip]
     X.check(got == want, "C48/raw/headers", f"raw export {raw!r}: headers {got!r} != {want!r}")
     # the export shows the decoded body when the coding can be removed, else the bytes as they are
-    wantbody = plain
+    wantbody = wire if coding == "gzip-invalid" else plain
     X.check(msg.body == wantbody, "C48/raw/body", f"raw export {raw!r}: body {msg.body!r} != {wantbody!r} (coding {coding}, chunked {chunked})")
     ce = [v for n, v in msg.fields if n.lower() == b"content-encoding"]
     if coding == "gzip":
